@@ -173,6 +173,9 @@ P_C02_UninstallListed ==
     \A r \in DOMAIN man : man[r].pol = "keep" => r \in Range(Trace[l].kept)
 \* the stored records of other releases (names extending / prefixing this one) are objects outside the release
 P_C02_Foreign == (l > 0 /\ l <= Len(Trace)) => Trace[l].state.foreign = fgn
+\* client-only rendering sends NOTHING: not a storage read, not a discovery request, not a lookup (monitor only:
+\* the count of HTTP requests of any kind is part of the end event)
+P_C06_ClientOnlySilent == (AtEnd /\ esum.u.clientOnly /\ l <= Len(Trace)) => Trace[l].reqs = 0
 P_C02_Strangers == AtEnd => C02_Strangers(EPre, S, esum)
 P_C02_Bystanders   == IsCall => C02_Bystanders(pre[CurProc].store, B, S, CurU.chart)
 
@@ -256,6 +259,7 @@ Checks == <<
   [n |-> "C02_Uninstall",     v |-> P_C02_Uninstall],
   [n |-> "C02_UninstallListed", v |-> P_C02_UninstallListed],
   [n |-> "C02_Foreign",       v |-> P_C02_Foreign],
+  [n |-> "C06_ClientOnlySilent", v |-> P_C06_ClientOnlySilent],
   [n |-> "C02_Strangers",     v |-> P_C02_Strangers],
   [n |-> "C02_Bystanders",    v |-> P_C02_Bystanders],
   [n |-> "C03_Error",         v |-> P_C03_Error],
